@@ -83,6 +83,10 @@ inductive Prim where
   /-- resize(): the reflow loop nest over the old primary screen (its source text is fixed in the
       translator; its meaning is the model's `reflow`) -/
   | reflowOld
+  /-- resize(): `pen := vt.cursor.Style` (a copy of the pen, held in the frame) -/
+  | savePen
+  /-- resize(): `vt.cursor.Style = pen` -/
+  | restorePen
   deriving DecidableEq, Repr, Inhabited
 
 inductive Stmt where
